@@ -221,7 +221,8 @@ def run(ctx):
                 if want == 'Trusted':
                     # must be dominated by a guard that establishes a trusted credential / absence of ANY failure
                     good = any(re.search(r'SIGNING_CREDENTIAL_TRUSTED', l) and not l.startswith('!') for l in L) or \
-                        any(re.search(r'is_empty|is_none', l) and not l.startswith('!') and 'validation_status' in l for l in L)
+                        any(re.search(r'is_empty|is_none', l) and not l.startswith('!') and 'validation_status' in l for l in L) or \
+                        (any(l == '!ok(Reader::validation_status(self))' for l in L) and any(re.search(r'active_manifest', l) and (l.startswith('ok(') or l.endswith('=1')) for l in L))
                 else:
                     good = any(('Iterator::any' in l and l.startswith('!')) or ('is_empty' in l and not l.startswith('!')) or ('ok(' in l and l.startswith('!')) for l in L)
                 if not good:
